@@ -8,7 +8,27 @@ use std::collections::BTreeMap;
 /// elements the caller created) along function graphs, then demands a bijection on classes under
 /// which every relation of `a` maps exactly onto the relation of `b`.
 pub fn isomorphic(p: &Program, a: &Model, b: &Model, fixed: &[usize]) -> Result<(), String> {
-    let map = extend(p, a, b, fixed)?;
+    let seeds: Vec<(TypeId, u32, u32)> = prefix_seeds(p, a, b, fixed)?;
+    isomorphic_with(p, a, b, &seeds)
+}
+
+fn prefix_seeds(p: &Program, a: &Model, b: &Model, fixed: &[usize]) -> Result<Vec<(TypeId, u32, u32)>, String> {
+    let mut seeds = Vec::new();
+    for ty in 0..p.types.len() {
+        if fixed[ty] > a.len(ty) || fixed[ty] > b.len(ty) {
+            return Err(format!("model lacks caller-created elements of type {}", p.types[ty].name));
+        }
+        for i in 0..fixed[ty] as u32 {
+            seeds.push((ty, i, i));
+        }
+    }
+    Ok(seeds)
+}
+
+/// Like `isomorphic`, with an explicit correspondence of caller-created elements
+/// (type, id in `a`, id in `b`).
+pub fn isomorphic_with(p: &Program, a: &Model, b: &Model, seeds: &[(TypeId, u32, u32)]) -> Result<(), String> {
+    let map = extend(p, a, b, seeds)?;
     // totality on classes of a
     for ty in 0..p.types.len() {
         for r in a.roots(ty) {
@@ -56,7 +76,8 @@ pub fn isomorphic(p: &Program, a: &Model, b: &Model, fixed: &[usize]) -> Result<
 /// Homomorphism `a -> b` fixing the caller-created ids: equalities and tuples of `a` must hold
 /// in `b`, and every element of `a` must be reachable (used for intermediate states).
 pub fn homomorphic(p: &Program, a: &Model, b: &Model, fixed: &[usize]) -> Result<(), String> {
-    let map = extend(p, a, b, fixed)?;
+    let seeds = prefix_seeds(p, a, b, fixed)?;
+    let map = extend(p, a, b, &seeds)?;
     for ty in 0..p.types.len() {
         for r in a.roots(ty) {
             if !map[ty].contains_key(&r) {
@@ -77,26 +98,23 @@ pub fn homomorphic(p: &Program, a: &Model, b: &Model, fixed: &[usize]) -> Result
 }
 
 /// map[ty]: root of `a` -> root of `b`.
-fn extend(p: &Program, a: &Model, b: &Model, fixed: &[usize]) -> Result<Vec<BTreeMap<u32, u32>>, String> {
+fn extend(p: &Program, a: &Model, b: &Model, seeds: &[(TypeId, u32, u32)]) -> Result<Vec<BTreeMap<u32, u32>>, String> {
     let nt = p.types.len();
     let mut map: Vec<BTreeMap<u32, u32>> = vec![BTreeMap::new(); nt];
-    for ty in 0..nt {
-        let n = fixed[ty].min(a.len(ty)).min(b.len(ty));
-        if fixed[ty] > a.len(ty) || fixed[ty] > b.len(ty) {
-            return Err(format!("model lacks caller-created elements of type {}", p.types[ty].name));
+    for &(ty, ia, ib) in seeds {
+        if ia as usize >= a.len(ty) || ib as usize >= b.len(ty) {
+            return Err(format!("model lacks caller-created element of type {}", p.types[ty].name));
         }
-        for i in 0..n as u32 {
-            let (ra, rb) = (a.find(ty, i), b.find(ty, i));
-            match map[ty].get(&ra) {
-                Some(&prev) if prev != rb => {
-                    return Err(format!(
-                        "caller-created elements of {} are equal in the first model but not in the second (id {})",
-                        p.types[ty].name, i
-                    ));
-                }
-                _ => {
-                    map[ty].insert(ra, rb);
-                }
+        let (ra, rb) = (a.find(ty, ia), b.find(ty, ib));
+        match map[ty].get(&ra) {
+            Some(&prev) if prev != rb => {
+                return Err(format!(
+                    "caller-created elements of {} are equal in the first model but not in the second (ids {} / {})",
+                    p.types[ty].name, ia, ib
+                ));
+            }
+            _ => {
+                map[ty].insert(ra, rb);
             }
         }
     }
